@@ -200,7 +200,7 @@ class Machine:
                 # a relative reference to a target outside the definer's tree is accepted by modelx and makes
                 # later re-derivations raise half-way (C10/C11 territory): only generated on request
                 t = m.space(v.get("space") or "")
-                if not (isinstance(t, rm.RSpace) and t.is_in(where)):
+                if not (isinstance(t, rm.RSpace) and t is where):
                     op["mode"] = "auto"
         return op
 
